@@ -1380,6 +1380,80 @@ theorem format_12_records_load (d cc sc : Dict) (h12 : Shape12 d) (hcc : dget d 
   obtain ⟨r1, r2⟩ := chain_request_preserved d d21 hall
   exact ⟨d21, hall, r2, r1⟩
 
+/-- **shape12B_sound / checked_shape_loads.** The executable shape test the driver prints for every generated format-12 record
+    (`shape12` op) implies the hypotheses of `format_12_records_load`: a record for which the driver answers 1 loads. -/
+theorem checked_shape_loads (d : Dict) (h : shape12B d = true) :
+    ∃ d', chain12_21 d = some d' ∧ dget d' (s "version") = some (.int 21) ∧ dget d' (s "request") = dget d (s "request") := by
+  have hok : ∀ o, hostOkM o = hostOkB o := by
+    intro o; cases o with
+    | none => rfl
+    | some v => rfl
+  unfold shape12B at h
+  simp only [Bool.and_eq_true] at h
+  obtain ⟨⟨⟨⟨hm, hr⟩, hw⟩, hq⟩, hc⟩ := h
+  cases hcc : dget d (s "client_conn") with
+  | none => simp [hcc] at hc
+  | some vc =>
+    cases hsc : dget d (s "server_conn") with
+    | none => simp [hcc, hsc] at hc
+    | some vs =>
+      cases vc <;> cases vs <;> simp only [hcc, hsc, Bool.false_eq_true] at hc
+      rename_i cc sc
+      unfold connShapeB at hc
+      simp only [Bool.and_eq_true, hok] at hc
+      obtain ⟨⟨⟨⟨⟨⟨⟨⟨⟨⟨c1, c2⟩, c3⟩, c4⟩, c5⟩, s1⟩, s2⟩, s3⟩, s4⟩, s5⟩, s6⟩ := hc
+      have ex : ∀ {o : Option Value}, o.isSome = true → ∃ v, o = some v := by
+        intro o ho; cases o with
+        | none => cases ho
+        | some v => exact ⟨v, rfl⟩
+      -- Shape12
+      have sh : Shape12 d := by
+        refine ⟨ex hm, ?_, ?_, ?_, ⟨cc, hcc⟩⟩
+        · unfold respOkB at hr
+          cases hresp : dget d (s "response") with
+          | none => simp [hresp] at hr
+          | some v =>
+            cases v <;> simp only [hresp, Bool.false_eq_true] at hr
+            · exact Or.inl rfl
+            · rename_i r
+              cases hts : dget r (s "timestamp_start") with
+              | none => simp [hts] at hr
+              | some ts =>
+                refine Or.inr ⟨r, ts, rfl, hts, ?_⟩
+                intro hn; subst hn; simp [hts] at hr
+        · unfold isNull at hw
+          cases hws : dget d (s "websocket") with
+          | none => simp [hws] at hw
+          | some v => cases v <;> simp [hws] at hw; rfl
+        · unfold reqOkB at hq
+          cases hrq : dget d (s "request") with
+          | none => simp [hrq] at hq
+          | some v =>
+            cases v <;> simp only [hrq, Bool.false_eq_true] at hq
+            rename_i rq
+            obtain ⟨ts, hts⟩ := ex hq
+            exact ⟨rq, ts, rfl, hts⟩
+      -- ConnShape
+      have cs : ConnShape cc sc := by
+        refine ⟨ex c1, ex c2, c3, c4, ex c5, ex s1, s2, s3, s4, ex s5, ?_⟩
+        unfold sniOkM at s6
+        cases hsni : dget sc (s "sni") with
+        | none => simp [hsni] at s6
+        | some sni =>
+          refine ⟨sni, rfl, ?_⟩
+          intro ht; subst ht
+          simp only [hsni] at s6
+          cases ha : dget sc (s "address") with
+          | none => simp [ha] at s6
+          | some a =>
+            cases a <;> simp only [ha, Bool.false_eq_true] at s6
+            · exact Or.inl rfl
+            · rename_i l
+              cases l with
+              | nil => simp at s6
+              | cons hh t => exact Or.inr ⟨hh, t, rfl⟩
+      exact format_12_records_load d cc sc sh hcc hsc cs
+
 -- non-vacuity of `format_12_records_load`: a plain-HTTP flow as mitmproxy 7 stored it (bytes host in the client address, sni = True)
 private def ld_cc : Dict := [(.str (s "address"), .list [.bytes (s "127.0.0.1"), .int 50000]), (.str (s "sockname"), .list [.str (s "::1"), .int 8080]),
   (.str (s "tls_extensions"), .null), (.str (s "tls_established"), .bool false), (.str (s "tls_version"), .null),
